@@ -137,6 +137,12 @@ def run(ctx):
         scenarios.append({"id": sid, "cfg": {"producers": ["p1", "p2", "p3", "p4"][:np_], "chancap": 10000}, "steps": [], "origin": "flood",
                           "free": {"nevents": nev, "broker_us": 0, "close_at_us": 0, "seed": rng.randint(1, 1 << 30), "stall": True}})
         nfree += 1
+    # ... and a backlog of LARGE events (a few megabytes in one pop) behind a stalled broker
+    for (np_, nev, pad) in ([(2, 8, 150)] if quick else [(2, 8, 150), (1, 30, 90), (3, 12, 300)]):
+        sid += 1
+        scenarios.append({"id": sid, "cfg": {"producers": ["p1", "p2", "p3"][:np_], "chancap": 10000}, "steps": [], "origin": "flood-large",
+                          "free": {"nevents": nev, "broker_us": 0, "close_at_us": 0, "seed": rng.randint(1, 1 << 30), "stall": True, "pad_kb": pad}})
+        nfree += 1
 
     # 3. replay on the real code
     binp = ctx.build("eventwriter")
